@@ -289,7 +289,10 @@ def run_dtree(inp):
 
 
 def run(inp):
-    k = inp["kind"]
+    k = str(inp["kind"])
+    while k.startswith(("corpus:", "replay:")):  # a replayed corpus case carries both prefixes
+        k = k.split(":", 1)[1]
+    inp = dict(inp, kind=k)
     if k == "dtrace":
         return run_dtrace(inp)
     if k in ("dvalue", "explicit"):
